@@ -87,6 +87,14 @@ theorem c_eq_py (op : Cmp) (a b : Key) : cOp op a b = pyOp op a b := by
     · have h' := lt_asymm h
       cases op <;> simp [hn, h, h', le_of_lt h, not_le_of_gt h, Ne.symm hn]
 
+/-- `(n1 > n2) - (n1 < n2)`, the source's spelling of the three-way comparison, is `compare3` -/
+theorem compare3_sub (a b : Key) :
+    ((if tupleLt b a then 1 else 0) - (if tupleLt a b then 1 else 0) : Int) = compare3 a b := by
+  unfold compare3
+  by_cases h1 : tupleLt b a
+  · have := tupleLt_asymm h1; simp [h1, this]
+  · by_cases h2 : tupleLt a b <;> simp [h1, h2]
+
 #print axioms c_eq_py
 #print axioms py_trichotomy
 end ZI.Order
